@@ -193,7 +193,21 @@ func (p *Prog) forAllShape(fn *ssa.Function) (over string, ok bool) {
 			// q == 0`) lets an absent entry pass as non-zero
 			if base, neg := condOf(iff.Cond); true {
 				if bs := deepStrip(p.Sym(base)); bs.Op == "extract" && bs.Name == "1" && len(bs.Args) == 1 && bs.Args[0].Op == "index" && (e.Succ == 0) != neg {
-					extraGuards++
+					// (harmless when the absent entry answers false as well: switch { case !ok: return
+					// false; case q == 0: return false })
+					other := e.From.Succs[1-e.Succ]
+					for hop := 0; hop < 2 && len(other.Instrs) == 1 && len(other.Succs) == 1; hop++ {
+						other = other.Succs[0]
+					}
+					absentFalse := false
+					if ret2, isRet2 := other.Instrs[len(other.Instrs)-1].(*ssa.Return); isRet2 && len(ret2.Results) == 1 {
+						if cv2, isC2 := ret2.Results[0].(*ssa.Const); isC2 && constString(cv2) == "false" {
+							absentFalse = true
+						}
+					}
+					if !absentFalse {
+						extraGuards++
+					}
 				}
 			}
 			// comma-ok form: `q, ok := mapParam[sliceParam[i]]`; !ok (no entry: nothing was given)
